@@ -164,6 +164,13 @@ def cases(tier, seed):
                                         'samp_md': smd, 'export': export, 'header_value': hv,
                                         'layout': lays[len(out) % len(lays)],
                                         'writers': WRITERS, 'readers': READERS})
+    # the name of the observation-id column is the caller's choice (it need not start with '#')
+    for shape, mask in fixed_masks(tier):
+        for col in ('Taxon', 'Feature ID', '#NAME'):
+            for md in ('none', 'taxonomy'):
+                out.append({'prod': 'B-col', 'shape': list(shape), 'mask': mask, 'rot': rot, 'obs_md': md,
+                            'export': md != 'none', 'obs_col': col, 'layout': 'csr',
+                            'writers': ['to_tsv', 'direct_io'], 'readers': READERS})
     for shape, zv in D.CANCEL:
         out.append({'prod': 'Z', 'shape': list(shape), 'zvals': list(zv), 'obs_md': 'none', 'export': False,
                     'writers': WRITERS, 'readers': READERS})
@@ -237,19 +244,26 @@ def pyify(x):
 
 
 # ------------------------------------------------------------------------- independent decoder
-def decode(text, ncol, md_name):
+def decode(text, ncol, md_name, obs_col=None):
     """Classic table text -> (sample ids, md column name, [(obs id, [value text], md text)]).
     Knows the structure that was requested (ncol value columns, optional metadata column), so
-    no heuristics: leading '#' lines are comments, the last of them is the header."""
+    no heuristics: leading '#' lines are comments, the last of them is the header -- unless a name not
+    starting with '#' was requested for the id column: then the header is the first line after them."""
     lines = text.split('\n')
     if lines and lines[-1] == '':
         lines.pop()
     k = 0
     while k < len(lines) and lines[k].startswith('#'):
         k += 1
+    if obs_col and not obs_col.startswith('#'):
+        k += 1
+        if k > len(lines):
+            raise ValueError('no header line')
     if k == 0:
         raise ValueError('no header line')
     head = lines[k - 1].split('\t')
+    if obs_col and head[0] != obs_col:
+        raise ValueError('id column is named %r, %r was requested' % (head[0], obs_col))
     want = 1 + ncol + (1 if md_name is not None else 0)
     if len(head) != want:
         raise ValueError('header has %d fields, %d expected' % (len(head), want))
@@ -361,17 +375,18 @@ def check(case, acc, tmp):
         def badw(sig, detail, w=w):      # the recorded case names the one writer
             acc.violation(sig, detail, dict(case, writers=[w]))
         try:
+            colkw = {'observation_column_name': case['obs_col']} if case.get('obs_col') else {}
             if w == 'to_tsv':
-                s = t.to_tsv(header_key=key, header_value=name, metadata_formatter=FORMAT[fmt_name]) \
-                    if key else t.to_tsv()
+                s = t.to_tsv(header_key=key, header_value=name, metadata_formatter=FORMAT[fmt_name], **colkw) \
+                    if key else t.to_tsv(**colkw)
                 exported = bool(key)
             elif w == 'direct_io':
                 buf = io.StringIO()
                 if key:
                     t.to_tsv(header_key=key, header_value=name, metadata_formatter=FORMAT[fmt_name],
-                             direct_io=buf)
+                             direct_io=buf, **colkw)
                 else:
-                    t.to_tsv(direct_io=buf)
+                    t.to_tsv(direct_io=buf, **colkw)
                 s = buf.getvalue()
                 exported = bool(key)
             elif w == 'str':
@@ -411,7 +426,7 @@ def check(case, acc, tmp):
         acc.evals += 1
         good = True
         try:
-            d_sids, d_name, rows = decode(s, len(sids), name if exported else None)
+            d_sids, d_name, rows = decode(s, len(sids), name if exported else None, case.get('obs_col'))
             d_oids = tuple(r[0] for r in rows)
             d_vals = np.array([[float(x) for x in r[1]] for r in rows], float).reshape(len(rows), len(sids))
         except Exception as e:
@@ -723,6 +738,37 @@ def history_roundtrip(t, m, report):
         report('history:read-values', 'matrix %r, expected %r' % (r.matrix_data.toarray().tolist(), dense.tolist()))
     else:
         report.count('clause:history-roundtrip')
+    # one observation-metadata category through a formatter and back through its inverse
+    md = t.metadata(axis='observation')
+    if md is None:
+        return
+    keys = sorted(set.intersection(*[set(map(str, e)) for e in md])) if len(md) else []
+    if not keys:
+        return
+    key = keys[0]
+    try:
+        want = [pyify(e[key]) for e in md]
+        texts = ['J' + json.dumps(w, sort_keys=True) for w in want]
+    except Exception:
+        return
+    if any('\t' in x or '\n' in x for x in texts):
+        return
+    try:
+        text = t.to_tsv(header_key=key, header_value='Category', metadata_formatter=lambda v: 'J' + json.dumps(pyify(v), sort_keys=True))
+        r = Table.from_tsv(text.splitlines(), None, None, lambda x: json.loads(x[1:]))
+    except Exception as e:
+        report('history:md-raised:' + type(e).__name__, 'TSV round trip with the category %r exported raised %s: %s'
+               % (key, type(e).__name__, e))
+        return
+    rmd = r.metadata(axis='observation')
+    got = [pyify(e.get('Category')) for e in rmd] if rmd is not None else None
+    if O.ids(r, 'observation') != oids or O.ids(r, 'sample') != sids or O.dense_bits(r) != bits:
+        report('history:md-read-table', 'with the category %r exported the table reads back as %r / %r / %r'
+               % (key, O.ids(r, 'observation'), O.ids(r, 'sample'), r.matrix_data.toarray().tolist()))
+    elif got != want:
+        report('history:md-read-metadata', 'category %r reads back as %r, expected %r' % (key, got, want))
+    else:
+        report.count('clause:history-roundtrip-metadata')
 
 
 def history_spec(depth):
@@ -767,10 +813,10 @@ def run(run):
         'writer_x_reader': 'every reader is run on every *distinct* text of a table (texts of two writers '
                            'that are character-identical are read once; counters text-identical:*)',
         'subprocess_cases': c.get('prod:SUB', 0), 'cases': len(cs)}
-    need = ['clause:history-roundtrip', 'clause:text-ids', 'clause:text-values', 'clause:text-metadata', 'clause:read-ids',
+    need = ['clause:history-roundtrip', 'clause:history-roundtrip-metadata', 'clause:text-ids', 'clause:text-values', 'clause:text-metadata', 'clause:read-ids',
             'clause:read-values', 'clause:read-metadata'] + \
         ['reader:' + r for r in READERS] + ['writer:' + w for w in WRITERS] + \
-        ['prod:A', 'prod:CV', 'prod:B-ids', 'prod:B-md', 'prod:V'] + ['style:' + s for s in ok] + \
+        ['prod:A', 'prod:CV', 'prod:B-ids', 'prod:B-md', 'prod:B-col', 'prod:V'] + ['style:' + s for s in ok] + \
         ['md:taxonomy:exported', 'md:taxonomy_ragged:exported', 'md:text:exported', 'md:none:not-exported'] + \
         ['shape:1x1', 'shape:1x3', 'shape:3x1', 'shape:2x3']
     if not run.quick and os.path.exists(BIOM_EXE):
